@@ -6,6 +6,7 @@ import BioscrapeModel.Model.Inference
 import BioscrapeModel.Model.Sensitivity
 import BioscrapeModel.Model.Deterministic
 import BioscrapeModel.Model.Expr
+import BioscrapeModel.Model.Sbml
 
 /-
 `modeldriver`: one JSON job per input line, one JSON answer per output line
@@ -405,6 +406,65 @@ def jobFormula (j : Json) : Except String Json := do
       return Json.mkObj [("parse", "ok"), ("translate", "ok"), ("eval", Codec.enc (tr.eval x p t)),
         ("voleval", Codec.enc (tr.volEval x p V t)), ("meaning", meaning)]
 
+open Bioscrape.Sbml in
+/-- the kinetic law `add_reaction` writes, evaluated as plain mathematics in a given environment. -/
+def jobKlaw (j : Json) : Except String Json := do
+  let ty ← getStrField j "type"
+  let stochastic := getBoolD j "stochastic" false
+  let envj ← (← j.getObjVal? "env").getObj?
+  let env : Env α := fun name => match envj.get? name with
+    | some v => (Codec.dec (α := α) v).toOption
+    | none => none
+  let law : Expr α ← match ty with
+    | "massaction" => pure (klMassAction stochastic (← getStrField j "k") (← getStrList j "reactants"))
+    | "general" => do
+        match parseFormula (α := α) (← getStrField j "rate") with
+        | .ok e => pure e
+        | .error m => throw m
+    | t => pure (klHill t (← getStrField j "k") (← getStrField j "K") (← getStrField j "n") (← getStrField j "s1")
+                   ((getStrField j "d").toOption.getD ""))
+  let docStoich := (dedupCount ((getStrList j "reactants").toOption.getD [])).map (fun sc =>
+    Json.arr #[Json.str sc.1, Json.num (JsonNumber.fromNat sc.2)])
+  return Json.mkObj [("value", match Expr.eval env law with | some v => Codec.enc v | none => Json.null),
+                     ("idents", Json.arr ((law.idents).map Json.str).toArray),
+                     ("stoich", Json.arr docStoich.toArray)]
+
+open Bioscrape.Sbml in
+/-- import of an un-annotated document: rules, local parameters, initial values, expanded stoichiometry. -/
+def jobSbmlImport [DecidableEq α] (j : Json) : Except String Json := do
+  let known ← getStrList j "known"
+  let rules ← (← getArr j "rules").toList.mapM (fun rj => do
+    let kind ← match (← getStrField rj "kind") with
+      | "assignment" => pure RuleKind.assignment
+      | "rate" => pure RuleKind.rate
+      | _ => pure RuleKind.algebraic
+    match parseFormula (α := α) (← getStrField rj "math") with
+    | .ok e => pure ({ kind, var := ← getStrField rj "var", math := e } : SbmlRule α)
+    | .error m => throw m)
+  let imp := importRules (fun s => known.contains s) rules
+  let species ← (← getArr j "species").toList.mapM (fun sj => do
+    let a := (getNum (α := α) sj "amount").toOption
+    let c := (getNum (α := α) sj "conc").toOption
+    return Json.arr #[Json.str (← getStrField sj "id"), Codec.enc (initialValue a c)])
+  let refs ← (← getArr j "refs").toList.mapM (fun r => do
+    let a ← r.getArr?
+    return ((← (a.getD 0 Json.null).getStr?), (← (a.getD 1 Json.null).getNat?)))
+  return Json.mkObj [("assignments", Json.arr (imp.assignments.map (fun a => Json.str a.1)).toArray),
+                     ("rateReactions", Json.arr (imp.rateReactions.map (fun a => Json.str a.1)).toArray),
+                     ("species", Json.arr species.toArray),
+                     ("expanded", Json.arr ((expand refs).map Json.str).toArray)]
+
+open Bioscrape.Sbml in
+/-- annotation text: what is written for a key/value list, and what is read back from a text. -/
+def jobAnnot (j : Json) : Except String Json := do
+  let kvs ← (← getArr j "kvs").toList.mapM (fun r => do
+    let a ← r.getArr?
+    return ((← (a.getD 0 Json.null).getStr?).toList, (← (a.getD 1 Json.null).getStr?).toList))
+  let text := encodeAnnotation kvs
+  let back := decodeAnnotation ((getStrField j "text").toOption.map String.toList |>.getD text)
+  return Json.mkObj [("text", Json.str (String.ofList text)),
+    ("decoded", Json.arr (back.map (fun kv => Json.arr #[Json.str (String.ofList kv.1), Json.str (String.ofList kv.2)])).toArray)]
+
 def dispatch (op : String) (j : Json) : Except String Json :=
   match op with
   | "prop" => jobProp (α := α) j
@@ -420,6 +480,7 @@ def dispatch (op : String) (j : Json) : Except String Json :=
   | "sens" => jobSens (α := α) j
   | "rhs" => jobRhs (α := α) j
   | "formula" => jobFormula (α := α) j
+  | "klaw" => jobKlaw (α := α) j
   | _ => throw s!"unknown op {op}"
 end
 
@@ -453,6 +514,8 @@ def handle (line : String) : Json :=
       let op ← getStrField j "op"
       let num := (getStrField j "num").toOption.getD "float"
       if op == "entry" then jobEntry j
+      else if op == "annot" then jobAnnot j
+      else if op == "sbmlimport" then jobSbmlImport (α := Rat) j
       else if num == "rat" then dispatch (α := Rat) op j else dispatch (α := Float) op j
     match r with
     | .ok out => out
